@@ -153,12 +153,17 @@ def negatives(tb, node):
                         for mod in list(tb.name_mods)[:4]:
                             cands.append(("prefix-on-non-si", mod + u))
     cands += [("gibberish", "qzxq"), ("gibberish", "units"), ("gibberish", "x")]
+    # a unit standing before the number is only legal for prefix-type units ('$')
+    for cname in sorted(mine):
+        for u, d in m.unit_classes[cname]["units"].items():
+            if "unitPrefix" not in d["attrs"] and " " not in u:
+                cands.append(("unit-before-number", "BEFORE:" + u))
     seen = set()
     for kind, txt in cands:
         if " " in txt or not txt or txt in seen:
             continue
         seen.add(txt)
-        if tb.accepts(node, txt) is None:
+        if txt.startswith("BEFORE:") or tb.accepts(node, txt) is None:
             yield kind, txt
 
 
@@ -221,6 +226,8 @@ def check_positive(out, version, node, literal, unit_text, u, mod, attrs, tb):
 
 def check_negative(out, version, node, literal, kind, unit_text):
     value = f"{literal} {unit_text}"
+    if unit_text.startswith("BEFORE:"):
+        value = f"{unit_text[7:]} {literal}"
     errs, warns = validate_codes(version, node, value)
     if "UNITS_INVALID" not in errs:
         out.bad(f"bad-unit-not-reported:{kind}", f"{version}: {tag_text(node, value)!r} -> errors {errs}")
